@@ -15,6 +15,7 @@ import (
 	"strconv"
 	"strings"
 	"time"
+	"unicode/utf8"
 )
 
 // FilterFunc is a function that can be used as a filter
@@ -1116,7 +1117,8 @@ func length(v interface{}) (int, error) {
 
 	switch value := v.(type) {
 	case string:
-		return len(value), nil
+		// The length of a string is its number of characters, not of bytes
+		return utf8.RuneCountInString(value), nil
 	case []interface{}:
 		return len(value), nil
 	case map[string]interface{}:
@@ -1126,7 +1128,9 @@ func length(v interface{}) (int, error) {
 	// Use reflection for other types
 	rv := reflect.ValueOf(v)
 	switch rv.Kind() {
-	case reflect.Array, reflect.Slice, reflect.Map, reflect.String:
+	case reflect.String:
+		return utf8.RuneCountInString(rv.String()), nil
+	case reflect.Array, reflect.Slice, reflect.Map:
 		return rv.Len(), nil
 	}
 
@@ -1343,7 +1347,7 @@ func (e *CoreExtension) filterCapitalize(value interface{}, args ...interface{})
 	words := strings.Fields(s)
 	for i, word := range words {
 		if len(word) > 0 {
-			words[i] = strings.ToUpper(word[0:1]) + strings.ToLower(word[1:])
+			words[i] = capitalizeWord(word)
 		}
 	}
 
@@ -1360,11 +1364,30 @@ func (e *CoreExtension) filterTitle(value interface{}, args ...interface{}) (int
 	words := strings.Fields(s)
 	for i, word := range words {
 		if len(word) > 0 {
-			words[i] = strings.ToUpper(word[0:1]) + strings.ToLower(word[1:])
+			words[i] = capitalizeWord(word)
 		}
 	}
 
 	return strings.Join(words, " "), nil
+}
+
+// firstChar returns the first character of s (which may be several bytes long),
+// or "" for the empty string. An invalid byte is returned unchanged.
+func firstChar(s string) string {
+	_, size := utf8.DecodeRuneInString(s)
+	return s[:size]
+}
+
+// lastChar returns the last character of s, or "" for the empty string.
+func lastChar(s string) string {
+	_, size := utf8.DecodeLastRuneInString(s)
+	return s[len(s)-size:]
+}
+
+// capitalizeWord upper-cases the first character of word and lower-cases the rest.
+func capitalizeWord(word string) string {
+	first := firstChar(word)
+	return strings.ToUpper(first) + strings.ToLower(word[len(first):])
 }
 
 func (e *CoreExtension) filterFirst(value interface{}, args ...interface{}) (interface{}, error) {
@@ -1374,10 +1397,7 @@ func (e *CoreExtension) filterFirst(value interface{}, args ...interface{}) (int
 
 	switch v := value.(type) {
 	case string:
-		if len(v) > 0 {
-			return string(v[0]), nil
-		}
-		return "", nil
+		return firstChar(v), nil
 	case []interface{}:
 		if len(v) > 0 {
 			return v[0], nil
@@ -1394,11 +1414,7 @@ func (e *CoreExtension) filterFirst(value interface{}, args ...interface{}) (int
 	rv := reflect.ValueOf(value)
 	switch rv.Kind() {
 	case reflect.String:
-		s := rv.String()
-		if len(s) > 0 {
-			return string(s[0]), nil
-		}
-		return "", nil
+		return firstChar(rv.String()), nil
 	case reflect.Array, reflect.Slice:
 		if rv.Len() > 0 {
 			return rv.Index(0).Interface(), nil
@@ -1421,10 +1437,7 @@ func (e *CoreExtension) filterLast(value interface{}, args ...interface{}) (inte
 
 	switch v := value.(type) {
 	case string:
-		if len(v) > 0 {
-			return string(v[len(v)-1]), nil
-		}
-		return "", nil
+		return lastChar(v), nil
 	case []interface{}:
 		if len(v) > 0 {
 			return v[len(v)-1], nil
@@ -1436,11 +1449,7 @@ func (e *CoreExtension) filterLast(value interface{}, args ...interface{}) (inte
 	rv := reflect.ValueOf(value)
 	switch rv.Kind() {
 	case reflect.String:
-		s := rv.String()
-		if len(s) > 0 {
-			return string(s[len(s)-1]), nil
-		}
-		return "", nil
+		return lastChar(rv.String()), nil
 	case reflect.Array, reflect.Slice:
 		if rv.Len() > 0 {
 			return rv.Index(rv.Len() - 1).Interface(), nil
